@@ -43,6 +43,12 @@ package ucon
 //@ requires big(maxVrfHashValue) == 2^256 - 1
 //@ loop j invariant 0 <= j
 //@ modifies c04BF
+// Provenance of the two numbers that are compared with the binomial CDF (floats stay uninterpreted: nothing numeric is claimed,
+// only WHICH computation produced the number): the lower-tail target is the float64 rounding of the 256-bit ratio hash/(2^256-1),
+// and the upper-tail value is the float64 rounding of 1 - ratio computed in big.Float precision BEFORE rounding — computing it
+// from the already rounded target loses the VRF output's low bits exactly for outputs around 2^256-1.
+//@ assert before call search#2: [upper-tail-from-exact-ratio] invValue == c04F64(c04FSub(c04FromF(f64(1)), c04FQuo(c04FromI(big(hb)), c04FromI(2^256 - 1))))
+//@ assert before call (gonum.org/v1/gonum/stat/distuv.Binomial).Mean: [target-from-exact-ratio] target == c04F64(c04FQuo(c04FromI(big(hb)), c04FromI(2^256 - 1)))
 //@ ensures [range]   0 <= result && result <= big(w)
 //@ ensures [function-of-inputs] assumed result == c04Choose(hash, big(w), p)
 
@@ -101,6 +107,16 @@ package ucon
 //@ trusted
 //@ modifies c04BF
 //@ ensures result == z && c04BF == store(old(c04BF), z, c04FQuo(old(c04BF)[x], old(c04BF)[y]))
+//@ spec func c04FSub(x: float64, y: float64) float64
+//@ spec func c04FromF(x: float64) float64
+//@ func (*math/big.Float).Sub props C04
+//@ trusted
+//@ modifies c04BF
+//@ ensures result == z && c04BF == store(old(c04BF), z, c04FSub(old(c04BF)[x], old(c04BF)[y]))
+//@ func math/big.NewFloat props C04
+//@ trusted
+//@ modifies c04BF
+//@ ensures fresh(result) && c04BF == store(old(c04BF), result, c04FromF(x))
 //@ func (*math/big.Float).Float64 props C04
 //@ trusted
 //@ pure
